@@ -29,6 +29,15 @@ var (
 		rapid.StringMatching(`[a-zA-Z0-9._\-]{1,12}`),
 		rapid.StringMatching(`[a-z]{120,140}`),
 		rapid.StringMatching(`[a-zé☃]{1,6}`),
+		// lengths around powers of two (fast paths and short-string optimisations have their edges there)
+		rapid.Custom(func(t *rapid.T) string {
+			n := rapid.SampledFrom([]int{7, 8, 9, 15, 16, 17, 30, 31, 32, 33, 63, 64, 65, 126, 127, 128, 129, 255, 256, 257}).Draw(t, "strEdgeLen")
+			b := make([]byte, n)
+			for i := range b {
+				b[i] = 'a' + byte((i*7+n)%26)
+			}
+			return string(b)
+		}),
 	)
 )
 
